@@ -183,6 +183,46 @@ let handle () =
     (match run_model fuel steps with
      | None -> "error model run fails (fuel or an entry set twice)"
      | Some res -> String.concat " || " (List.map (fun (evs, pend) -> String.concat " ; " (List.map ev evs) ^ " | " ^ string_of_int (List.length pend)) res))
+  | "hds" ->
+    (* hds <ini> <fin> <nelems> { <raw> } <nsteps> { <d> <nbase> { <atom> } } : Model/HeadRules.head_step - the clauses and rules of a head
+       formula (built through the regenerated create_formula table of heads) at distance d from the state it was introduced at *)
+    let ini = nat () in let fin = nat () in
+    let rec raw () =
+      match next () with
+      | "a" -> RAtom (nat ())
+      | "kw" -> RKw (coq_string (next ()))
+      | "o1" -> let o = coq_string (next ()) in let x = raw () in ROp1 (o, x)
+      | "o2" -> let o = coq_string (next ()) in let x = raw () in let y = raw () in ROp2 (o, x, y)
+      | "on" -> let o = coq_string (next ()) in let n = nat () in let y = raw () in ROpN (o, n, y)
+      | s -> failwith ("raw " ^ s) in
+    let elems = list (fun () -> hbuild ini fin (raw ())) in
+    let steps = list (fun () -> let d = nat () in let base = list nat in (d, base)) in
+    if List.mem None elems then "error formula cannot be built from the regenerated create_formula table of heads" else
+    (match helems (List.map (function Some x -> x | None -> HConst false) elems) with
+     | None -> "error no element"
+     | Some f ->
+       let b x = if x then "1" else "0" in
+       let i n = string_of_int (int_of_nat n) in
+       let rec hf = function
+         | HAt a -> "(at " ^ i a ^ ")" | HConst c -> "(cst " ^ b c ^ ")" | HNeg x -> "(neg " ^ hf x ^ ")" | HNx (n, w, x) -> "(nx " ^ i n ^ " " ^ b w ^ " " ^ hf x ^ ")"
+         | HUn (u, l, r) -> "(un " ^ b u ^ " " ^ hf l ^ " " ^ hf r ^ ")" | HUn1 (u, r) -> "(un1 " ^ b u ^ " " ^ hf r ^ ")"
+         | HAnd (x, y) -> "(and " ^ hf x ^ " " ^ hf y ^ ")" | HOr (x, y) -> "(or " ^ hf x ^ " " ^ hf y ^ ")" in
+       let rec leaf = function
+         | SAt a -> "(A " ^ i a ^ ")" | SBack (d, x) -> "(B " ^ i d ^ " " ^ hf x ^ ")" | SFwd (n, w, x) -> "(F " ^ i n ^ " " ^ b w ^ " " ^ hf x ^ ")"
+         | SAnd (x, y) -> "(AND " ^ leaf x ^ " " ^ leaf y ^ ")" | SOr (x, y) -> "(OR " ^ leaf x ^ " " ^ leaf y ^ ")" in
+       let bop = function OpAnd -> "&" | OpOr -> "|" | OpRImp -> "->" | OpLImp -> "<-" | OpEqv -> "<>" in
+       let rec bf = function
+         | At a -> "(at " ^ i a ^ ")" | Cst c -> "(cst " ^ b c ^ ")" | Neg0 x -> "(neg " ^ bf x ^ ")" | Bin0 (o, x, y) -> "(bin " ^ bop o ^ " " ^ bf x ^ " " ^ bf y ^ ")"
+         | Pv (n, w, x) -> "(pv " ^ i n ^ " " ^ b w ^ " " ^ bf x ^ ")" | Ini x -> "(ini " ^ bf x ^ ")" | Nx (n, w, x) -> "(nx " ^ i n ^ " " ^ b w ^ " " ^ bf x ^ ")"
+         | TN2 (u, l, r) -> "(tn2 " ^ b u ^ " " ^ bf l ^ " " ^ bf r ^ ")" | TN1 (u, r) -> "(tn1 " ^ b u ^ " " ^ bf r ^ ")"
+         | TP2 (u, l, r) -> "(tp2 " ^ b u ^ " " ^ bf l ^ " " ^ bf r ^ ")" | TP1 (u, r) -> "(tp1 " ^ b u ^ " " ^ bf r ^ ")" in
+       let step (d, base) =
+         let (cs, rs) = head_step f d base in
+         String.concat " / " (List.map (fun c -> String.concat " " (List.map leaf c)) cs) ^ " => " ^
+         (match rs with
+          | None -> "norules"
+          | Some rs -> String.concat " / " (List.map (fun r -> String.concat " " (List.map i r.hd) ^ " : " ^ String.concat " " (List.map bf r.bd)) rs)) in
+       hf f ^ " || " ^ String.concat " || " (List.map step steps))
   | "ctr" ->
     (* ctr <nrules> { <part I|A|D|F> <head n a | d k a.. | c k a.. | x> <nbody> { <sgn> <at a past | in a | kI | kF> } } : Model/CoreRun.transform *)
     let sg () = match next () with "p" -> Pos0 | "n" -> Neg1 | "m" -> NegNeg0 | s -> failwith ("sgn " ^ s) in
